@@ -1,15 +1,18 @@
-(* C17 -- model of air/src/mono.rs (monomorphize) as implemented:
+(* C17 -- model of air/src/mono.rs (monomorphize) as implemented (after the repairs e5b1019,
+   26298e9, c2787f9):
      - generic_functions: name -> index, later duplicates win (HashMap::collect),
-     - requests are collected only from functions without type parameters,
-       in Vec / block / statement order, with infer_type_args + unify_param (first binding wins),
+     - requests are collected from the functions without type parameters, in Vec / block /
+       statement order, with infer_type_args + unify_param (first binding wins),
      - instantiate: one clone per distinct (name, type_to_string key), types substituted in
-       params / ret / locals / casts, StructInit names get a "__mono_<name>_<first type arg>" name,
-     - rewrite_call_sites: every Named call in a non-generic function whose name has instances is
-       redirected to `entries.first()` of a HashMap-derived list: the iteration order is not
-       determined by the program, so it is a Section variable [pick] here,
+       params / ret / locals / casts; StructInit names are left alone,
+     - instantiate + collect over the NEW instances is repeated until a round creates nothing
+       (at most MAX_MONO_ROUNDS rounds),
+     - rewrite_call_sites: every Named call in a non-generic function (instances included) whose
+       callee is generic is redirected to the instance registered for exactly the type arguments
+       inferred at that call site (left alone when there is none),
      - generic functions are dropped; structs are never touched. *)
 From Coq Require Import NArith Bool List.
-From Aelys Require Import Model.AirLower.
+From Aelys Require Import Model.AirLower Extracted.MonoConsts.
 Import ListNotations.
 Local Open Scope N_scope.
 
@@ -193,19 +196,9 @@ Fixpoint subst (tp : list N) (ta : list ty) (t : ty) : ty :=
 with subst_list (tp : list N) (ta : list ty) (l : tys) : tys :=
   match l with TNil => TNil | TCons t r => TCons (subst tp ta t) (subst_list tp ta r) end.
 
-(* StructInit: for tp in type_params { if let Some(r) = type_args.get(tp.0) { if name contains
-   "__mono_" { continue } name = "__mono_{name}_{r}" } }: the first type parameter whose id
-   indexes into type_args renames, the rest are skipped *)
-Fixpoint first_arg (tp : list N) (ta : list ty) : option ty :=
-  match tp with
-  | [] => None
-  | i :: r => match nth_error ta (N.to_nat i) with Some t => Some t | None => first_arg r ta end
-  end.
-
 Definition subst_stmt (tp : list N) (ta : list ty) (s : mstmt) : mstmt :=
   match s with
   | MCast a b => MCast (subst tp ta a) (subst tp ta b)
-  | MInit (NPlain n) => match first_arg tp ta with Some t => MInit (NMono n [key1 t]) | None => s end
   | other => other
   end.
 
@@ -234,55 +227,50 @@ Fixpoint instantiate (fs : list mfn) (reqs : list (N * list ty)) (done : list in
            end
   end.
 
-(* rewrite_call_sites first builds name -> Vec of (key, mangled) from the `instantiated` HashMap;
-   rewrite_callee then takes `entries.first()`.  The table of first entries: *)
-Definition choice_table := list (N * option inst).
+(* collect over a list of (non-generic) callers *)
+Definition requests_from (fs callers : list mfn) : list (N * list ty) :=
+  flat_map (fun f => if is_generic f then [] else requests_of_fn fs f) callers.
 
-Fixpoint bases (insts : list inst) (seen : list N) : list N :=
-  match insts with
-  | [] => []
-  | i :: r => if memN (i_base i) seen then bases r seen else i_base i :: bases r (i_base i :: seen)
+(* the instantiate / collect loop of monomorphize; [fs] = functions of the input program *)
+Fixpoint rounds (fuel : nat) (fs : list mfn) (reqs : list (N * list ty)) (done : list inst)
+  (allnew : list mfn) : list inst * list mfn :=
+  match fuel with
+  | O => (done, allnew)
+  | S k =>
+      let '(done', newf) := instantiate fs reqs done [] in
+      match newf with
+      | [] => (done', allnew)
+      | _ => rounds k fs (requests_from fs newf) done' (allnew ++ newf)
+      end
   end.
 
-Definition lookup_choice (tab : choice_table) (n : N) : option inst :=
-  match find (fun p => fst p =? n) tab with Some (_, Some i) => Some i | _ => None end.
+Definition mono_insts (p : mprog) : list inst * list mfn :=
+  rounds (N.to_nat MAX_MONO_ROUNDS) (p_fns p) (requests (p_fns p)) [] [].
 
-Definition rewrite_stmt (tab : choice_table) (s : mstmt) : mstmt :=
+(* instance_for_call + rewrite of one statement of [caller] *)
+Definition rewrite_stmt (fs : list mfn) (insts : list inst) (caller : mfn) (s : mstmt) : mstmt :=
   match s with
   | MCall (NPlain n) args =>
-      match lookup_choice tab n with Some i => MCall (i_name i) args | None => s end
+      match generic_fn fs n with
+      | Some g =>
+          match infer_type_args g caller args with
+          | Some ta => if has_inst insts n (key ta) then MCall (NMono n (key ta)) args else s
+          | None => s
+          end
+      | None => s
+      end
   | other => other
   end.
 
-Definition rewrite_fn (tab : choice_table) (f : mfn) : mfn :=
+Definition rewrite_fn (fs : list mfn) (insts : list inst) (f : mfn) : mfn :=
   if is_generic f then f
   else mkmfn (m_name f) (m_tparams f) (m_params f) (m_ret f) (m_locals f)
-             (map (rewrite_stmt tab) (m_body f)) (m_blocks f).
+             (map (rewrite_stmt fs insts f) (m_body f)) (m_blocks f).
 
-Definition mono_insts (p : mprog) : list inst * list mfn :=
-  instantiate (p_fns p) (requests (p_fns p)) [] [].
-
-Definition mono_finish (tab : choice_table) (p : mprog) : mprog :=
+Definition monomorphize (p : mprog) : mprog :=
   let '(insts, newf) := mono_insts p in
-  let fs := map (rewrite_fn tab) (p_fns p ++ newf) in
+  let fs := map (rewrite_fn (p_fns p) insts) (p_fns p ++ newf) in
   mkmp (filter (fun f => negb (is_generic f)) fs) (p_structs p) (p_insts p ++ insts).
-
-Section Rewrite.
-  (* HashMap iteration order: which of the instances of [base] comes first *)
-  Variable pick : N -> list inst -> option inst.
-
-  Definition choices (insts : list inst) : choice_table :=
-    map (fun n => (n, pick n (filter (fun i => i_base i =? n) insts))) (bases insts []).
-
-  Definition monomorphize (p : mprog) : mprog :=
-    mono_finish (choices (fst (mono_insts p))) p.
-End Rewrite.
-
-Definition pick_first (_ : N) (l : list inst) : option inst := hd_error l.
-
-(* [pick] is some element of the non-empty list it is given: all that is known of HashMap order *)
-Definition pick_sound (pick : N -> list inst -> option inst) : Prop :=
-  forall n l, l <> [] -> exists i, pick n l = Some i /\ In i l.
 
 (* ---- the property's clauses after monomorphisation *)
 Definition fn_types (f : mfn) : list ty :=
@@ -369,20 +357,19 @@ Definition wf_mono (orig p : mprog) : bool :=
 Definition wf_air (orig p : mprog) : bool :=
   forallb (fun f => wf_cfg (m_blocks f)) (p_fns p) && wf_mono orig p.
 
-(* ---- canonical observation for the tie (independent of the HashMap order):
-   instances in creation order; per surviving function its calls (callee as written, or "some
-   instance of base") and its struct-init names *)
-Inductive cobs := CPlain (n : N) | CInstOf (n : N) | SPlain (n : N) | SRenamed (n : N) (k : list ty).
+(* ---- canonical observation for the tie: instances in creation order; per surviving function its
+   types, its calls (callee as written, or the exact instance) and its struct-init names *)
+Inductive cobs := CPlain (n : N) | CInst (n : N) (k : list ty) | SPlain (n : N) | SRenamed (n : N) (k : list ty).
 Definition cobs_eqb (a b : cobs) : bool :=
   match a, b with
-  | CPlain x, CPlain y | CInstOf x, CInstOf y | SPlain x, SPlain y => x =? y
-  | SRenamed x k, SRenamed y l => (x =? y) && tylist_eqb k l
+  | CPlain x, CPlain y | SPlain x, SPlain y => x =? y
+  | CInst x k, CInst y l | SRenamed x k, SRenamed y l => (x =? y) && tylist_eqb k l
   | _, _ => false
   end.
 Definition stmt_obs (s : mstmt) : list cobs :=
   match s with
   | MCall (NPlain n) _ => [CPlain n]
-  | MCall (NMono n _) _ => [CInstOf n]
+  | MCall (NMono n k) _ => [CInst n k]
   | MInit (NPlain n) => [SPlain n]
   | MInit (NMono n k) => [SRenamed n k]
   | MCast _ _ => []
@@ -391,7 +378,7 @@ Definition fn_obs (f : mfn) : name * list ty * list cobs :=
   (m_name f, map snd (m_params f) ++ [m_ret f] ++ map snd (m_locals f), flat_map stmt_obs (m_body f)).
 Definition mono_obs_t : Type := (list (N * list ty) * list (name * list ty * list cobs))%type.
 Definition mono_obs (p : mprog) : mono_obs_t :=
-  let q := monomorphize pick_first p in
+  let q := monomorphize p in
   (map (fun i => (i_base i, i_args i)) (p_insts q), map fn_obs (p_fns q)).
 
 Fixpoint list_eqb' {A} (eqb : A -> A -> bool) (a b : list A) : bool :=
